@@ -19,12 +19,16 @@ import (
 )
 
 type wlWG struct {
-	Variant  string   `json:"variant"` // base | perm-types | perm-operands | concurrent
-	Model    *Model   `json:"model"`
-	TypePerm []int    `json:"type_perm,omitempty"`
-	Alt      *Model   `json:"alt,omitempty"`    // perm-operands
-	Others   []*Model `json:"others,omitempty"` // concurrent: additional models
-	Tasks    [][]int  `json:"tasks,omitempty"`  // concurrent: per task, indexes into [Model, Others...]
+	Variant  string `json:"variant"` // base | perm-types | perm-operands | concurrent
+	Model    *Model `json:"model"`
+	TypePerm []int  `json:"type_perm,omitempty"`
+	// split-types: type number SplitType is written as two definitions of the
+	// same name, relations [0,SplitAt) and [SplitAt,n)
+	SplitType int      `json:"split_type,omitempty"`
+	SplitAt   int      `json:"split_at,omitempty"`
+	Alt       *Model   `json:"alt,omitempty"`    // perm-operands
+	Others    []*Model `json:"others,omitempty"` // concurrent: additional models
+	Tasks     [][]int  `json:"tasks,omitempty"`  // concurrent: per task, indexes into [Model, Others...]
 	// SharedBuilder: the tasks call Build on one builder value (the builder is
 	// stateless today; "concurrent builds in other goroutines" covers it)
 	SharedBuilder bool `json:"shared_builder,omitempty"`
@@ -602,6 +606,26 @@ func newWGCtx(wl *wlWG) *wgCtx {
 	return c
 }
 
+// splitType returns a copy of m in which type number ti (which must have at
+// least two relations) is written as TWO type definitions of the same name,
+// the first k relations in one and the rest in the other - a shape only JSON /
+// protobuf can express. What it means is not this harness's business; that the
+// outcome does not depend on the order of the definitions is (C06).
+func splitType(m *Model, ti, k int) *Model {
+	c := m.clone()
+	if ti < 0 || ti >= len(c.Types) || k <= 0 || k >= len(c.Types[ti].Relations) {
+		return nil
+	}
+	t := c.Types[ti]
+	second := &Type{Name: t.Name, Module: t.Module, File: t.File, Relations: t.Relations[k:]}
+	t.Relations = t.Relations[:k:k]
+	for _, rel := range append(append([]*Relation(nil), t.Relations...), second.Relations...) {
+		rel.ShareWith = ""
+	}
+	c.Types = append(c.Types, second)
+	return c
+}
+
 func permTypes(m *Model, perm []int) *Model {
 	c := m.clone()
 	if len(perm) != len(c.Types) {
@@ -725,6 +749,25 @@ func (c *wgCtx) check0(cfg simrt.Config) ([]mismatch, simrt.Stats, string) {
 			}
 		}
 		return mm, st, out.verdict()
+	case "split-types":
+		sm := splitType(wl.Model, wl.SplitType, wl.SplitAt)
+		if sm == nil {
+			return nil, simrt.Stats{}, "n/a"
+		}
+		pmA, pmB := sm.toProto(), permTypes(sm, wl.TypePerm).toProto()
+		simrt.Begin(cfg)
+		simrt.CountFault("deliver.permute")
+		var outA, outB wgOutcome
+		simrt.Run([]func(){func() { outA = doBuild(pmA); outB = doBuild(pmB) }})
+		st := simrt.End()
+		if outA.verdict() != outB.verdict() {
+			add("C06", "determinism.type_order.verdict", "", "type %d written as two definitions of one name: verdict %s in one order of the definitions, %s after permuting them %v", wl.SplitType, outA.verdict(), outB.verdict(), wl.TypePerm)
+		} else if outA.accepted() {
+			if a, bb := snapshot(outA.G), snapshot(outB.G); a.text != bb.text {
+				add("C06", "determinism.type_order.graph", "", "type %d written as two definitions of one name: graph differs after permuting the definitions %v: %s", wl.SplitType, wl.TypePerm, firstDiff(a.text, bb.text))
+			}
+		}
+		return mm, st, outA.verdict()
 	case "perm-operands":
 		pm2 := wl.Alt.toProto()
 		simrt.Begin(cfg)
@@ -1198,6 +1241,28 @@ func wgRunOne(b *BatchResult, prop string, seed, run uint64, p wgParams) {
 			mm, st, _ := c2.check(s.cfg)
 			b.addStats(st, nontriv)
 			report(wl2, s, mm, st)
+		}
+		// (b') one type written as two definitions of the same name
+		if r.chance(25) {
+			var multi []int
+			for i, t := range m.Types {
+				if len(t.Relations) >= 2 {
+					multi = append(multi, i)
+				}
+			}
+			if len(multi) > 0 {
+				ti := multi[r.intn(len(multi))]
+				wl5 := &wlWG{Variant: "split-types", Model: m, SplitType: ti, SplitAt: 1 + r.intn(len(m.Types[ti].Relations)-1), TypePerm: r.perm(len(m.Types) + 1)}
+				c5 := &wgCtx{wl: wl5, ref: c.ref, pm: c.pm, canon: c.canon, csnap: c.csnap}
+				s := namedSched{"canonical", simrt.Config{}}
+				if len(fam) > 0 && r.chance(50) {
+					s = fam[r.intn(len(fam))]
+				}
+				mm, st, _ := c5.check(s.cfg)
+				b.addStats(st, nontriv)
+				report(wl5, s, mm, st)
+				b.Probes["split_type_definitions"]++
+			}
 		}
 		// (c) commutative operand order
 		if alt, changed := permuteOperands(r, m); changed {
